@@ -425,6 +425,19 @@ def main(argv):
                 want = [expected_item(stmt) + ((1, 4),), ("z=0", None, None, (5, 5))]
                 if items != want:
                     fail("reader#fixed.same_statements", dict(source=src), dict(items=items, expected=want))
+                # the same with comments kept (the comment line inside the continuation is then seen by the continuation loop
+                # itself) and with a blank line as well: the quote state of the literal is carried across them
+                lines2 = [lab + " " + body[:i], "C first", "     1" + body[i:j], "", "* second", "     2" + body[j:], "      z = 0"]
+                src2 = "\n".join(lines2) + "\n"
+                cases += 1
+                try:
+                    kept = read_items(src2, ignore_comments=False, free=False)
+                except BaseException as e:  # noqa
+                    fail("reader#fixed.same_statements", dict(source=src2, comments="kept"), "%s: %s" % (type(e).__name__, e))
+                    continue
+                st2 = [(i2[1], i2[2], i2[3]) for i2 in kept if i2[0] == "stmt"]
+                if st2 != [expected_item(stmt), ("z=0", None, None)]:
+                    fail("reader#fixed.same_statements", dict(source=src2, comments="kept"), dict(items=st2, expected=[expected_item(stmt), ("z=0", None, None)]))
         for first in ("x = 1", "program p", " call s()", "  a=b", "module m", "subroutine s", "integer function f()", "10 x = 1", "use m"):
             cases += 1
             if not get_source_info_str(first + "\n      y = 2\n").is_free:
